@@ -21,7 +21,7 @@ type ClassSet uint64
 
 func allClasses(npoints int) ClassSet { return ClassSet(1)<<(2*npoints+2) - 1 }
 
-func classOfPoint(k int) int   { return 1 + 2*k + 1 }
+func classOfPoint(k int) int    { return 1 + 2*k + 1 }
 func classBelowPoint(k int) int { return 1 + 2*k }
 func classAbovePoint(k int) int { return 1 + 2*k + 2 }
 
@@ -194,6 +194,7 @@ type pstate struct {
 	epoch   int
 	seq     int
 	locals  map[*ssa.Alloc]*Term
+	stored  map[string]int // address key -> number of stores so far on the path
 	tc      *TermCtx
 }
 
@@ -210,6 +211,10 @@ func (s *pstate) clone() *pstate {
 		epoch:   s.epoch,
 		seq:     s.seq,
 		locals:  map[*ssa.Alloc]*Term{},
+		stored:  map[string]int{},
+	}
+	for k, v := range s.stored {
+		n.stored[k] = v
 	}
 	for k, v := range s.visits {
 		n.visits[k] = v
@@ -268,7 +273,7 @@ func pathsOf(prog *Program, fn *ssa.Function, dom *Domain, opts execOpts) ([]*Pa
 			}
 		}
 	}
-	st := &pstate{visits: map[*ssa.BasicBlock]int{}, pred: map[*ssa.BasicBlock]*ssa.BasicBlock{}, classes: map[string]ClassSet{}, atoms: map[string]bool{}, locals: map[*ssa.Alloc]*Term{}}
+	st := &pstate{visits: map[*ssa.BasicBlock]int{}, pred: map[*ssa.BasicBlock]*ssa.BasicBlock{}, classes: map[string]ClassSet{}, atoms: map[string]bool{}, locals: map[*ssa.Alloc]*Term{}, stored: map[string]int{}}
 	ex.run(st, fn.Blocks[0], nil)
 	return ex.paths, !ex.over
 }
@@ -306,6 +311,7 @@ func (ex *executor) newTC(st *pstate) {
 		}
 		return st.locals[a]
 	}
+	tc.loadVer = func(k string) int { return st.stored[k] }
 	st.tc = tc
 }
 
@@ -339,6 +345,7 @@ func (ex *executor) run(st *pstate, b *ssa.BasicBlock, from *ssa.BasicBlock) {
 			}
 			st.seq++
 			st.effects = append(st.effects, Effect{Seq: st.seq, Kind: "store", Instr: in, Addr: addr, Val: val, InLoop: ex.inLoop[b], Block: b})
+			st.stored[addr.Key()]++
 			st.epoch++
 		case *ssa.MapUpdate:
 			st.seq++
